@@ -127,6 +127,13 @@ def _gen_eval(exp_terms):
     return exp_terms
 
 
+def warmup_cfg(cfg):
+    """the used-process warm-up of a polynomial space builds a space of ANOTHER degree first"""
+    if cfg.get("kind") == "poly":
+        return dict(cfg, degree=1 if cfg["degree"] != 1 else 2)
+    return cfg
+
+
 def body(cfg):
     import darsia
 
